@@ -204,9 +204,15 @@ def main():
                     from pyvc.engine import Oblig
 
                     for lab, hyps, goal in pm.lemmas():
+                        if lab.startswith("cover:"):  # satisfiability guard of a lemma's hypotheses (unsat = vacuous lemma = machinery error)
+                            covers.append(Oblig(f"{prop}/lemma/cover/{lab[6:]}", list(hyps), z3.BoolVal(False), "cover", "lemma hypotheses"))
+                            continue
                         obligs.append(Oblig(f"{prop}/lemma/{lab}", list(hyps), goal, "lemma", "lemma over the contracts' spec functions"))
+                    assumptions |= set(getattr(pm, "LEMMA_ASSUMPTIONS", []))  # what the lemmas take as hypotheses beyond the contracts
             except ModuleNotFoundError:
                 pass
+            except Exception as e:  # a lemma that can no longer be STATED over the contracts (renamed clause ...): never a silent pass
+                errors.append(f"contracts.{mod}.lemmas(): {type(e).__name__}: {e}\n{traceback.format_exc(limit=6)}")
     if used_lemmas:
         from pyvc import lemmas as _lm
         from pyvc.engine import Oblig
